@@ -227,7 +227,7 @@ func (pr *propRun) add(rec oblRecord, r *SolveResult, o *Obl) {
 func (pr *propRun) finish(e *Engine, seed int, t0 time.Time) int {
 	known := loadKnownFindings()
 	violations := 0
-	var knownReported []string
+	knownReported := []string{}
 	exit := 0
 	os.MkdirAll(filepath.Join("/verif/replays", pr.prop), 0o755)
 	for _, f := range pr.failed {
@@ -280,13 +280,13 @@ func (pr *propRun) finish(e *Engine, seed int, t0 time.Time) int {
 		trusted = append(trusted, "trusted contract: "+k)
 	}
 	sort.Strings(trusted[4:])
-	var assumptions []string
+	assumptions := []string{}
 	for k := range pr.assumed {
 		assumptions = append(assumptions, "unchecked callee: "+k)
 	}
 	sort.Strings(assumptions)
 	assumptions = append(assumptions, propAssumptions[pr.prop]...)
-	var warns []string
+	warns := []string{}
 	for w := range pr.warnings {
 		warns = append(warns, w)
 	}
@@ -302,8 +302,8 @@ func (pr *propRun) finish(e *Engine, seed int, t0 time.Time) int {
 		"solver_ms_total":         pr.solverMs,
 		"vacuity_checks":          pr.vacuity,
 		"known_findings_reported": knownReported,
-		"undecided":               pr.undecided,
-		"bounded":                 pr.bounded,
+		"undecided":               nonNil(pr.undecided),
+		"bounded":                 nonNilM(pr.bounded),
 		"engine_warnings":         warns,
 		"by_tag":                  tagCounts(pr.records),
 		"explanation":             "obligations generated from /repo's SSA (go/ssa) and the //@ contracts; each discharged by an SMT solver (P/L), by go/types constant evaluation (K) or by effect inference over the SSA call graph (F). Bounded stand-ins are listed separately and never counted as discharged.",
@@ -416,4 +416,17 @@ func listAll(e *Engine) {
 			fmt.Println("   ", k)
 		}
 	}
+}
+
+func nonNil(x []string) []string {
+	if x == nil {
+		return []string{}
+	}
+	return x
+}
+func nonNilM(x []map[string]interface{}) []map[string]interface{} {
+	if x == nil {
+		return []map[string]interface{}{}
+	}
+	return x
 }
